@@ -814,12 +814,15 @@ func (r *Reconciler) reconcileApply(ctx context.Context, proposal *configapi.Pro
 		if config.Status.Applied.Values == nil {
 			config.Status.Applied.Values = make(map[string]*configapi.PathValue)
 		}
-		for path, changeValue := range updatedChangeValues {
+		// The deletes cascade onto what has been applied to the target so far, which is not necessarily what has
+		// been committed by now.
+		appliedChangeValues := controllerutils.AddDeleteChildren(proposal.TransactionIndex, changeValues, config.Status.Applied.Values)
+		for path, changeValue := range appliedChangeValues {
 			if changeValue.Deleted {
 				_ = applyChangeToConfig(config.Status.Applied.Values, path, changeValue)
 			}
 		}
-		for path, changeValue := range updatedChangeValues {
+		for path, changeValue := range appliedChangeValues {
 			if !changeValue.Deleted {
 				_ = applyChangeToConfig(config.Status.Applied.Values, path, changeValue)
 			}
